@@ -47,6 +47,31 @@ CLAIMED['C05'] = dict(
    text='Proof (partial for the whole-document statement). Proved: the tokenizer assigns non-decreasing line numbers starting at 1 for every input; add_whitespace for offset n>0 emits exactly n line breaks; every shipped stringify writes each field with its own stored location (closed obligation). That every token of write(load(T)) stands on its input line is evaluated on the real library for documents of the property\'s layout class (random line breaks, blank lines, block-level comments, dropped comments), and the writer\'s own format is checked to be a byte-exact fixpoint.' + LOADTIE,
    note='Edit locality (single-field edit / push / remove through the API) is not yet exercised: partial.',
    design='8 C05')
+CLAIMED['C03'] = dict(
+   technique='Coq proof of totality of the byte scanner (no out-of-bounds index, fuel never exhausted) and monotonicity of token lines; whole tokenizer+parser model with explicit panic sites tied by differential on malformed inputs; totality oracle with catch_unwind / 8 MiB stack / watchdog',
+   text='Proof (partial: parser recursion depth and wall clock are runtime facts). For EVERY byte string the tokenizer model - in which each slice and index of tokenizer.rs is explicit and can yield Panic - returns tokens or a tokenizer error: never Panic, never out of fuel (C03_tokenizer_total / _never_panics / _always_terminates), the A2ML block scan terminates inside its input, token lines never decrease and start at 1 (so the u32 line differences of the parser cannot underflow within a file). The parser model (every unwrap / index / subtraction of parser.rs, ifdata.rs as Panic outcome) is compared with the implementation on truncations, token mutations and token soups: same outcome class, diagnostic and panic behaviour. Oracle: no panic / abort / timeout over strict x a2ml_spec {none, valid, invalid} x entry point {string, fragment, file}, nesting ladders to depth 200000, random bytes.',
+   note='Known finding: unbounded recursion (stack overflow for several thousand nested blocks in IF_DATA). Panic-freedom of the parser proper is not yet a theorem; the A2ML interpreter is exercised by the oracle only.',
+   design='8 C03')
+CLAIMED['C04'] = dict(
+   technique='Coq closed obligation: grammar term recovered from the shipped code = reference grammar term (spec_eqb by vm_compute, lifted to equality); generic lemmas per deviation class; grammar-interpreting parser model tied by differential; exhaustive element sweep',
+   text='Proof. C04_shipped_grammar_is_reference_grammar: the grammar recovered from specification.rs (189 types: parameter order and types, optional / required / repeatable sub-elements, block vs keyword form, version ranges, enum items) is equal, as a Coq term, to the frozen reference copy of the A2L 1.7.1 DSL read through the in-tree DSL parser; re-checked on every run. For every grammar: block-as-keyword, keyword-as-block, duplicate single element (strict error / non-strict warning), missing required element, unknown enum value, too-new element (strict error / non-strict warning), deprecated element (warning in both modes) yield exactly their diagnostic at the generic parser\'s decision points; the six ASAP2 versions are distinguished. The parser model is the interpreter of that grammar term and is compared with the implementation on every document. Oracle: all 164 block/keyword types under every parent with all optional sub-elements in every version in which they exist load strictly without diagnostics; every deviation class gives its diagnostic class in both modes.' + LOADTIE,
+   note='That the interpreter accepts every document derived from the grammar is not a separate theorem (it is the frame lemma of C01); trusted: the translator\'s fully-accounted-for rule.',
+   design='8 C04')
+CLAIMED['C06'] = dict(
+   technique='Coq proofs on the parser state monad: single decision point, diagnostic position, simulation lemmas strict -> non-strict (compositional over bind); model tied by differential in both modes; pairwise oracle on the implementation',
+   text='Proof (partial: the document-level relation is evaluated, not proved). Proved: error_or_log is the only place where the strictness flag is read - strict returns the error unchanged, non-strict appends exactly it to the log; every diagnostic built by the parser carries the file of its context and the line of the last token taken (and get_token sets that line); a computation that succeeds in strict mode is simulated in non-strict mode with the same value, cursor and log - for error_or_log, the multiplicity and version checks, and compositionally for bind. The generic parser model is compared with the implementation in BOTH modes on valid documents, 14 classes of injected faults and token mutations (model, every diagnostic with line, written text). Oracle: the four relations of the property between load(T, strict) and load(T, non-strict) on every input.',
+   note='Known finding: MissingVersionInfo / InvalidVersion carry no file and line. Sites that catch errors (greedy sequences, speculative IF_DATA parsing) are outside the simulation theorem.',
+   design='8 C06')
+CLAIMED['C07'] = dict(
+   technique='Coq proof by induction over balanced token runs: handle_unknown_taggedstruct_tag skips exactly the unknown element (block and keyword form) with one warning, strict error names it; model tied by differential; injection oracle',
+   text='Proof (partial: composition with the rest of the parser is evaluated, not proved). For EVERY balanced payload u (nested unknown blocks, comments, scalars - defined inductively) the block form /begin TAG u /end TAG is consumed exactly, the cursor is left on the token behind it, and exactly one UnknownSubBlock diagnostic is logged (C07_unknown_block_skipped); for every keyword payload without /begin, /end or tags of the enclosing block the skip stops exactly in front of the next sibling keyword, sibling block or the enclosing /end (C07_unknown_keyword_skipped); in strict mode the result is the error UnknownSubBlock naming the tag. Oracle on the implementation: for valid documents x insertion points x payload families, non-strict loading gives one warning and a model equal to the base document, strict loading fails naming the element.' + LOADTIE,
+   note='Guard of the keyword theorem = the exclusions of the property (payload does not reuse a tag of the enclosing block).',
+   design='8 C07')
+CLAIMED['C20'] = dict(
+   technique='Coq closed obligations: shipped grammar term = DSL grammar term, writer/eq template consistency; translator fully-accounted-for rule; differential of two builds of the crate (shipped vs macro expansion with in-tree a2lmacros)',
+   text='Proof + translation validation. The grammar recovered from the shipped generated code equals, as a Coq term, the grammar the in-tree DSL parser reads from specification_orig.rs (C20_grammars_are_equal, via a proved-sound boolean equality evaluated by vm_compute); every shipped stringify / PartialEq is the template instance of its entry; the translator rejects any statement it cannot account for, so the shipped code is an instance of the modelled template. The generator side is observed directly: the crate is rebuilt with specification.rs := the macro invocation compiled with the in-tree a2lmacros, the same harness (typed dumper included) is compiled against it, and complete transcripts (model dump, diagnostics, written text, reload) of both builds are compared byte for byte on valid, faulty and mutated documents in both modes.',
+   note='rustc macro expansion itself is observed, not modelled. The hand-written A2ml / IfData impls exist in both files and are pinned token for token by the translator.',
+   design='8 C20')
 REASON_TODO = 'not yet implemented in this round (model/theorems planned in DESIGN.md section 8); no claim is made'
 
 def main():
